@@ -84,7 +84,7 @@ def write_cfg(path, spec="Spec", constants=None, invariants=(), properties=(), c
         for k, v in constants.items():
             if isinstance(v, bool):
                 v = "TRUE" if v else "FALSE"
-            elif isinstance(v, str) and not v.startswith("{"):
+            elif isinstance(v, str) and not v.startswith("{"):  # model values are strings
                 v = '"%s"' % v
             lines.append("  %s = %s" % (k, v))
     if invariants:
@@ -177,6 +177,8 @@ def run_model(name, module, constants, invariants, binp=None, workers=8, timeout
                               cwd=d, stdin=pt.stdout, stdout=subprocess.PIPE, env=env)
         pt.stdout.close()
         out, _ = ph.communicate()
+        if ph.returncode != 0:
+            pt.kill()
         pt.wait()
         res["harness_rc"] = ph.returncode
         text = open(tlclog, errors="replace").read() if os.path.exists(tlclog) else ""
@@ -208,6 +210,10 @@ def run_model(name, module, constants, invariants, binp=None, workers=8, timeout
             except Exception:
                 pass
     shutil.rmtree(os.path.join(d, "states"), ignore_errors=True)
+    if "hang" in res or "abort" in res:
+        # the implementation hung or died on the case named in res: that is the finding; TLC's run was cut short
+        log("[model] %s: replay stopped: %s" % (name, "hang" if "hang" in res else "abnormal exit rc=%s" % res["abort"]["rc"]))
+        return res
     if res["tlc_rc"] == 124:
         raise ToolError("TLC timed out on %s after %ss" % (name, timeout))
     if simulate:
@@ -254,11 +260,21 @@ def collect_cases(name, module, constants, invariants, workers=6, timeout=1800):
 # ----------------------------------------------------------------------------------------------
 # trace validation (impl -> spec)
 # ----------------------------------------------------------------------------------------------
+class DriverDied(ToolError):
+    def __init__(self, driver, rc, pending, stderr):
+        ToolError.__init__(self, "driver %s died rc=%s while calling %s: %s" % (driver, rc, pending[:600], stderr[-600:]))
+        self.driver, self.rc, self.pending = driver, rc, pending
+
+
 def run_driver(binp, driver, seed, n, out, extra=()):
     cmd = [binp, "drive", driver, "--seed", str(seed), "--n", str(n), "--out", out] + list(extra)
-    p = subprocess.run(cmd, stdout=subprocess.PIPE, stderr=subprocess.PIPE, text=True)
+    # the CPU-time limit turns a hang inside the library into a death of the driver, reported with the pending call
+    p = subprocess.run(["bash", "-c", "ulimit -t 120; exec \"$@\"", "drv"] + cmd, stdout=subprocess.PIPE, stderr=subprocess.PIPE, text=True)
     if p.returncode != 0:
-        raise ToolError("driver %s failed rc=%s: %s" % (driver, p.returncode, p.stderr[-2000:]))
+        pend = ""
+        if os.path.exists(out + ".pending"):
+            pend = open(out + ".pending", errors="replace").read()
+        raise DriverDied(driver, p.returncode, pend, p.stderr)
     try:
         return json.loads(p.stdout.strip().splitlines()[-1])
     except Exception:
